@@ -119,7 +119,16 @@ func (i *importedString) StrictEquals(other Value) bool {
 			return true
 		}
 	case *importedString:
-		return i.s == otherStr.s
+		if i.s == otherStr.s {
+			return true
+		}
+		if utf8.ValidString(i.s) && utf8.ValidString(otherStr.s) {
+			return false
+		}
+		// Different invalid UTF-8 sequences can decode to the same code units.
+		i.ensureScanned()
+		otherStr.ensureScanned()
+		return i.u != nil && otherStr.u != nil && i.u.equals(otherStr.u)
 	}
 	return false
 }
